@@ -68,7 +68,7 @@ class Link(object):
         self.payload_split = 0
         self.connects = 0
         self.closes = 0
-        self.step_cap = cfg.get('step_cap', 1000000)
+        self.step_cap = cfg.get('step_cap', 3000000)
         self.call_cost = cfg.get('call_cost', 1e-6)
         self.idle_cost = cfg.get('idle_cost', 0.05)
         self.frag = cfg.get('frag', 'whole')
